@@ -12,8 +12,9 @@ import traceback
 import tlc
 
 ROOT = os.path.dirname(os.path.dirname(os.path.abspath(__file__)))
-EVIDENCE = os.path.join(ROOT, 'evidence')
-REPLAYS = os.path.join(ROOT, 'replays')
+_OUT = os.environ.get('STONE_VERIF_OUT') or ROOT     # seed testing writes its evidence/replays elsewhere
+EVIDENCE = os.path.join(_OUT, 'evidence')
+REPLAYS = os.path.join(_OUT, 'replays')
 KNOWN = os.path.join(ROOT, 'known_findings.json')
 
 
